@@ -243,6 +243,27 @@ pub fn observe(e: &StorageEngine) -> Result<Obs, String> {
     Ok(o)
 }
 
+/// Answers of a probe query through every persistent rule (all rules of the DUR families have
+/// arity 2): what a rule *means* must survive a restart, not only its name and text.
+fn rule_answers(e: &StorageEngine) -> std::collections::BTreeMap<String, String> {
+    let mut out = std::collections::BTreeMap::new();
+    for kg in e.list_knowledge_graphs() {
+        for name in e.list_rules_in(&kg).unwrap_or_default() {
+            let q = format!("probe_q(X0, X1) <- {name}(X0, X1)");
+            let v = match e.execute_query_with_rules_tuples_on(&kg, &q) {
+                Ok(ts) => {
+                    let mut rows: Vec<T> = ts.iter().map(from_tuple).collect();
+                    rows.sort();
+                    format!("{rows:?}")
+                }
+                Err(err) => format!("err:{err}"),
+            };
+            out.insert(format!("{kg}:{name}"), v);
+        }
+    }
+    out
+}
+
 struct Exec<'a> {
     case: &'a Case,
     engine: Option<StorageEngine>,
@@ -558,6 +579,8 @@ impl<'a> Exec<'a> {
                 }
             }
         }
+        let has_rules = self.case.ops.iter().chain(self.case.post_ops.iter()).any(|o| matches!(o, Op::RegisterRule { .. }));
+        let answers_before = if has_rules { rule_answers(self.engine.as_ref().expect("engine")) } else { Default::default() };
         self.engine = None;
         self.out.restarts += 1;
         let mut fired = errno_fired();
@@ -591,6 +614,18 @@ impl<'a> Exec<'a> {
         // the durable-mode contract: clean restart reproduces the live state. In async/batched
         // modes only a graceful restart promises that.
         let promised = graceful || self.case.cfg.durability == "immediate";
+        if promised && has_rules && self.alts.is_empty() {
+            let answers_after = rule_answers(self.engine.as_ref().expect("engine"));
+            if answers_after != answers_before {
+                let diff: Vec<String> = answers_before
+                    .iter()
+                    .filter(|(k, v)| answers_after.get(*k) != Some(*v))
+                    .map(|(k, v)| format!("{k}: before {v} after {:?}", answers_after.get(k)))
+                    .take(3)
+                    .collect();
+                return Err(fail("restart_differs_rules", step, format!("answers through persistent rules changed across the restart: {diff:?}")));
+            }
+        }
         if promised && !self.alts.is_empty() {
             // failed operations may surface (or vanish) across a restart, nothing else may change
             match self.explained(&after) {
